@@ -125,6 +125,12 @@ pub fn line_eq(chk: &mut Chk, s: &LinSyms, out: Sym, k: usize, j: usize) -> Stri
 }
 
 pub fn check_config(cfg: &Cfg) -> Report {
+    check_config_for("C01", cfg)
+}
+/// `prop` = "C01": in-range queries, closed brackets, all corollaries; "C06": extrapolating interpolator,
+/// unconstrained query, the border brackets open to the outside, line-value obligations only
+pub fn check_config_for(prop: &str, cfg: &Cfg) -> Report {
+    let c01 = prop == "C01";
     with_ctx(|c| c.reset_all());
     let mut chk = Chk::new(Mode::R, cfg.timeout_ms);
     chk.begin_config(&cfg.name());
@@ -136,8 +142,10 @@ pub fn check_config(cfg: &Cfg) -> Report {
         for i in 0..n - 1 {
             Sym::assume_lt(s.x[i], s.x[i + 1]);
         }
-        Sym::assume_le(s.x[0], s.q);
-        Sym::assume_le(s.q, s.x[n - 1]);
+        if c01 {
+            Sym::assume_le(s.x[0], s.q);
+            Sym::assume_le(s.q, s.x[n - 1]);
+        }
         eval_linear(cfg, &s.x, &s.y, s.q)
     });
     chk.add_explore_stats(paths.len(), &st);
@@ -152,7 +160,7 @@ pub fn check_config(cfg: &Cfg) -> Report {
         match &p.result {
             Ok(Ok(out)) => {
                 for k in 0..n - 1 {
-                    let prem = bracket_premise(&mut chk, &s, k, n, true);
+                    let prem = bracket_premise(&mut chk, &s, k, n, c01);
                     let mut pre = pcs.clone();
                     pre.push(prem);
                     // is this path compatible with bracket k at all? (cheap, and gives the vacuity witness)
@@ -171,17 +179,33 @@ pub fn check_config(cfg: &Cfg) -> Report {
                         if let Verdict::Cex(vals) = chk.must_unsat("line-value", &format!("path {pi} bracket {k} lane {j}: value on the line through the bracketing points"), &a, &all_vars) {
                             let model: BTreeMap<String, Rat> = vals.iter().filter_map(|(k, v)| sx_to_rat(v).map(|r| (k.clone(), r))).collect();
                             let (rep, rec) = replay_linear(cfg, &model);
-                            chk.finding(&format!("C01:wrong-value:{:?}", cfg.entry), &format!("{}: result is not on the line through the bracketing points (bracket {k}, lane {j})", cfg.name()), rec, rep);
+                            chk.finding(&format!("{prop}:wrong-value:{:?}", cfg.entry), &format!("{}: result is not on the line through the bracketing points (bracket {k}, lane {j})", cfg.name()), rec, rep);
+                        }
+                        if !canary_done && n >= 3 && k + 2 < n {
+                            // wrong oracle: the line through the *next* bracket's points
+                            let (xk, q) = (chk.term(s.x[k]), chk.term(s.q));
+                            let wrong = line_eq(&mut chk, &s, out[j], k + 1, j);
+                            let mut a = pre.clone();
+                            a.push(format!("(< {xk} {q})"));
+                            let strictly_inside = a.clone();
+                            a.push(format!("(not {wrong})"));
+                            if matches!(chk.feasible(&strictly_inside), crate::engine::smt::Answer::Sat) {
+                                chk.canary(&format!("path {pi}: value claimed to lie on the line of bracket {} instead of {k}", k + 1), &a);
+                                canary_done = true;
+                            }
+                        }
+                        if !c01 {
+                            continue;
                         }
                         // corollaries, asserted directly
-                        let (o, q, xk, yk, yk1) = (chk.term(out[j]), chk.term(s.q), chk.term(s.x[k]), chk.term(s.y[k][j]), chk.term(s.y[k + 1][j]));
+                        let (o, q, xk, yk) = (chk.term(out[j]), chk.term(s.q), chk.term(s.x[k]), chk.term(s.y[k][j]));
                         let mut a = pcs.clone();
                         a.push(format!("(= {q} {xk})"));
                         a.push(format!("(not (= {o} {yk}))"));
                         if let Verdict::Cex(vals) = chk.must_unsat("knot-value", &format!("path {pi} knot {k} lane {j}: data point reproduced"), &a, &all_vars) {
                             let model: BTreeMap<String, Rat> = vals.iter().filter_map(|(k, v)| sx_to_rat(v).map(|r| (k.clone(), r))).collect();
                             let (rep, rec) = replay_linear(cfg, &model);
-                            chk.finding(&format!("C01:knot-not-reproduced:{:?}", cfg.entry), &format!("{}: data point {k} not reproduced at its axis value (lane {j})", cfg.name()), rec, rep);
+                            chk.finding(&format!("{prop}:knot-not-reproduced:{:?}", cfg.entry), &format!("{}: data point {k} not reproduced at its axis value (lane {j})", cfg.name()), rec, rep);
                         }
                         if k == n - 2 {
                             let (xl, yl) = (chk.term(s.x[n - 1]), chk.term(s.y[n - 1][j]));
@@ -191,26 +215,7 @@ pub fn check_config(cfg: &Cfg) -> Report {
                             if let Verdict::Cex(vals) = chk.must_unsat("knot-value", &format!("path {pi} last knot lane {j}: data point reproduced"), &a, &all_vars) {
                                 let model: BTreeMap<String, Rat> = vals.iter().filter_map(|(k, v)| sx_to_rat(v).map(|r| (k.clone(), r))).collect();
                                 let (rep, rec) = replay_linear(cfg, &model);
-                                chk.finding(&format!("C01:knot-not-reproduced:{:?}", cfg.entry), &format!("{}: last data point not reproduced (lane {j})", cfg.name()), rec, rep);
-                            }
-                        }
-                        let mut a = pre.clone();
-                        a.push(format!("(or (and (< {o} {yk}) (< {o} {yk1})) (and (> {o} {yk}) (> {o} {yk1})))"));
-                        if let Verdict::Cex(vals) = chk.must_unsat("within-bracket-values", &format!("path {pi} bracket {k} lane {j}: result between the bracketing values"), &a, &all_vars) {
-                            let model: BTreeMap<String, Rat> = vals.iter().filter_map(|(k, v)| sx_to_rat(v).map(|r| (k.clone(), r))).collect();
-                            let (rep, rec) = replay_linear(cfg, &model);
-                            chk.finding(&format!("C01:leaves-bracket-values:{:?}", cfg.entry), &format!("{}: result leaves the interval spanned by the bracketing values (bracket {k}, lane {j})", cfg.name()), rec, rep);
-                        }
-                        if !canary_done && n >= 3 && k + 2 < n {
-                            // wrong oracle: the line through the *next* bracket's points
-                            let wrong = line_eq(&mut chk, &s, out[j], k + 1, j);
-                            let mut a = pre.clone();
-                            a.push(format!("(< {xk} {q})"));
-                            let strictly_inside = a.clone();
-                            a.push(format!("(not {wrong})"));
-                            if matches!(chk.feasible(&strictly_inside), crate::engine::smt::Answer::Sat) {
-                                chk.canary(&format!("path {pi}: value claimed to lie on the line of bracket {} instead of {k}", k + 1), &a);
-                                canary_done = true;
+                                chk.finding(&format!("{prop}:knot-not-reproduced:{:?}", cfg.entry), &format!("{}: last data point not reproduced (lane {j})", cfg.name()), rec, rep);
                             }
                         }
                     }
@@ -223,7 +228,7 @@ pub fn check_config(cfg: &Cfg) -> Report {
                     let model: BTreeMap<String, Rat> = vals.iter().filter_map(|(k, v)| sx_to_rat(v).map(|r| (k.clone(), r))).collect();
                     let (rep, rec) = replay_linear(cfg, &model);
                     let kind = if matches!(p.result, Err(_)) { "panic" } else { "error" };
-                    chk.finding(&format!("C01:in-range-query-{kind}:{:?}", cfg.entry), &format!("{}: in-range query not answered: {e}", cfg.name()), rec, rep);
+                    chk.finding(&format!("{prop}:in-range-query-{kind}:{:?}", cfg.entry), &format!("{}: in-range query not answered: {e}", cfg.name()), rec, rep);
                 } else if !matches!(ans, crate::engine::smt::Answer::Unsat) {
                     chk.rep.inconclusive.push(format!("{}: feasibility of a non-Ok path undecided", cfg.name()));
                 }
